@@ -512,12 +512,15 @@ class LSMTree(Entity):
         sstable = old_memtable.flush()
         self._sstable_bytes_written += sstable.size_bytes
 
+        # Add to L0 before suspending: Memtable.flush() has emptied the
+        # immutable memtable, so the SSTable is now the only copy of the data
+        # and must be visible to reads during the write latency below.
+        self._levels[0].append(sstable)
+
         # Write latency for creating SSTable on disk
         pages = max(1, sstable.key_count // 16)
         yield pages * self._sstable_write_latency
 
-        # Add to L0
-        self._levels[0].append(sstable)
         self._total_memtable_flushes += 1
 
         # Remove from immutable list
